@@ -248,6 +248,18 @@ func report(g *Gen, p *PropConfig, bl *Baseline, out *CheckOutcome, tier string,
 		}
 	}
 	trusted := keys(out.Trusted)
+	// the slowest obligations that count (margin against the per-obligation timeout)
+	var slow []*OblResult
+	for _, r := range out.Results {
+		if !r.Cover && bl.Claimed[r.ID] && !r.Joint {
+			slow = append(slow, r)
+		}
+	}
+	sort.Slice(slow, func(i, j int) bool { return slow[i].Secs > slow[j].Secs })
+	var slowest []map[string]interface{}
+	for i := 0; i < len(slow) && i < 5; i++ {
+		slowest = append(slowest, map[string]interface{}{"obligation": slow[i].ID, "secs": slow[i].Secs, "solver": slow[i].Solver})
+	}
 	bounded := runBounded(p, tier, verif, repo)
 	for _, b := range bounded {
 		if !b.OK {
@@ -278,6 +290,7 @@ func report(g *Gen, p *PropConfig, bl *Baseline, out *CheckOutcome, tier string,
 		"discharged_in_joint_query": out.Joint,
 		"solver_secs_total":        out.SolverSecs,
 		"solver_secs_max":          out.MaxSecs,
+		"slowest_claimed":          slowest,
 		"smt_bytes_generated":      out.SMTBytes,
 		"not_claimed":              map[string]interface{}{"by_kind": notClaimedKinds, "list": notClaimedList, "note": "obligations generated for these functions that are not in the baseline (never counted as proved; assumed where later obligations depend on them)"},
 		"undecided_new":            undecidedNew,
